@@ -161,9 +161,17 @@ class BoundarySpace(Subspace):
         self.name = "counter-boundaries"
         q = tier == "quick"
         Ss = (32769, 65537, 70000) if q else (32766, 32767, 32768, 32769, 65535, 65536, 65537, 70000)
-        self.cases = [(S, ng) for S in Ss for ng in (1, 2)]
+        self.cases = [(S, ng, "int") for S in Ss for ng in (1, 2)]
         if not q:
-            self.cases.append((70000, -1))  # every n for nth on one group
+            self.cases.append((70000, -1, "int"))  # every n for nth on one group
+        # narrow group codes: small categoricals and boolean keys carry int8 codes (limit 127/128),
+        # categoricals with more than 127 categories int16 codes
+        for S in ((128, 129, 300) if q else (126, 127, 128, 129, 130, 255, 256, 257, 300)):
+            self.cases += [(S, 2, "cat8"), (S, 2, "bool")]
+            if not q or S == 129:
+                self.cases.append((S, 1, "cat8"))
+        for S in ((32769,) if q else (32767, 32768, 32769, 40000)):
+            self.cases.append((S, 2, "cat16"))
 
     def size(self):
         return len(self.cases)
@@ -172,8 +180,8 @@ class BoundarySpace(Subspace):
         return (0,)
 
     def case(self, i):
-        S, ng = self.cases[i]
-        return dict(S=S, ngroups=ng)
+        S, ng, kk = self.cases[i]
+        return dict(S=S, ngroups=ng, keykind=kk)
 
     def run(self, case):
         from groupby_lib import GroupBy
@@ -185,9 +193,19 @@ class BoundarySpace(Subspace):
         ng = 1 if every else ng
         n = S * ng
         keys = (np.arange(n) % ng).astype(np.int64)
+        kk = case.get("keykind", "int")
+        if kk == "cat8":
+            keys = pd.Categorical.from_codes(keys.astype("i1"), categories=["a", "b", "c"])
+        elif kk == "bool":
+            keys = keys.astype(bool)
+        elif kk == "cat16":
+            keys = pd.Categorical.from_codes(keys.astype("i2"), categories=[f"c{i:03d}" for i in range(200)])
         vals = np.arange(n, dtype="f8")
         g = GroupBy(keys)
         B = [0, 1, 2, 32766, 32767, 32768, 32769, 65534, 65535, 65536, 65537, S - 1, S, S + 1]
+        if kk in ("cat8", "bool"):
+            B = [0, 1, 2, 126, 127, 128, 129, 130, 254, 255, 256, 257, S - 1, S, S + 1]
+        S_ng = f"{S} x {ng} ({kk} keys)"
         ns_nth = sorted(set(B + [-b for b in B if b] + [-S - 1]))
         if every:
             ns_nth = list(range(-S - 1, S + 1))
@@ -197,7 +215,7 @@ class BoundarySpace(Subspace):
                 with contextlib.redirect_stdout(io.StringIO()):
                     out = g.nth(vals, a, keep_input_index=True)
             except Exception as e:  # noqa
-                res.fail("total", f"nth({a}) group size {S} x {ng}: raised {type(e).__name__}: {str(e)[:80]}")
+                res.fail("total", f"nth({a}) group size {S_ng}: raised {type(e).__name__}: {str(e)[:80]}")
                 if every:
                     break
                 continue
@@ -206,7 +224,7 @@ class BoundarySpace(Subspace):
             else:
                 want = [k + (S + a) * ng for k in range(ng)] if -a <= S else []
             if sorted(out.tolist()) != [float(w) for w in want] or sorted(out.index.tolist()) != want:
-                res.fail("boundary", f"nth({a}) group size {S} x {ng}: rows {sorted(out.index.tolist())[:4]} "
+                res.fail("boundary", f"nth({a}) group size {S_ng}: rows {sorted(out.index.tolist())[:4]} "
                                      f"expected {want}")
                 if every:
                     break
@@ -219,7 +237,7 @@ class BoundarySpace(Subspace):
                     with contextlib.redirect_stdout(io.StringIO()):
                         out = getattr(g, op)(vals, a, keep_input_index=True)
                 except Exception as e:  # noqa
-                    res.fail("total", f"{op}({a}) group size {S} x {ng}: raised {type(e).__name__}: {str(e)[:80]}")
+                    res.fail("total", f"{op}({a}) group size {S_ng}: raised {type(e).__name__}: {str(e)[:80]}")
                     continue
                 m = min(a, S)
                 if op == "head":
@@ -229,7 +247,7 @@ class BoundarySpace(Subspace):
                 got = np.sort(out.index.to_numpy())
                 if len(got) != len(want) or (got != want).any() or \
                         (np.sort(out.to_numpy()) != want.astype("f8")).any():
-                    res.fail("boundary", f"{op}({a}) group size {S} x {ng}: {len(got)} rows, "
+                    res.fail("boundary", f"{op}({a}) group size {S_ng}: {len(got)} rows, "
                                          f"expected {len(want)}")
         return res
 
